@@ -38,7 +38,8 @@ def r09_1_2(run):
     p = isa.params[0]
     cmds = [(c, attach_cmd(isa, c)) for c in calls_in(isa)]
     cmds = [(c, sh) for c, sh in cmds if sh is not None]
-    run.floor('R09.2', 'ATTACHSTREAM senders in issue_stream_attach', len(cmds), 2)
+    run.floor('R09.2', 'ATTACHSTREAM senders in issue_stream_attach', len(cmds), 1)
+    base_defs = expr_defs_for_shape(local_defs(isa))
 
     def hook_for(cls):
         def hook(node, val, trail):
@@ -73,11 +74,28 @@ def r09_1_2(run):
         run.paths_enumerated += len(paths)
         for pth in paths:
             sent = []
+            pathdefs = dict(base_defs)
             for n, lab in pth.steps:
                 for a in node_asts(n):
                     for c, sh in cmds:
                         if a is c:
-                            sent.append(sh)
+                            # a hole that is a local set differently per leg (target = 0 ... target = circ.id) has, on this path, the
+                            # value last assigned on it
+                            sh2 = []
+                            for piece in shape(c.args[0], pathdefs):
+                                if isinstance(piece, Hole) and isinstance(piece.node, ast.Name) and len(pathdefs.get(piece.node.id, [])) == 1:
+                                    v_ = pathdefs[piece.node.id][0]
+                                    cv = const(v_)
+                                    piece = str(cv) if cv is not NOCONST and isinstance(cv, (int, str)) else Hole(v_)
+                                if isinstance(piece, str) and sh2 and isinstance(sh2[-1], str):
+                                    sh2[-1] += piece
+                                else:
+                                    sh2.append(piece)
+                            sent.append(sh2)
+                if n.kind == 'stmt' and isinstance(n.ast, ast.Assign) and lab != 'exc':
+                    for t_ in n.ast.targets:
+                        if isinstance(t_, ast.Name):
+                            pathdefs[t_.id] = [n.ast.value]
             desc = 'answer=%s: %s' % (cls, pth.describe(8))
             if cls == 'marker':
                 run.ob('R09.1', isa, isa.node, 'do-not-attach sends nothing', not sent and pth.exit != 'raise', slot='do-not-attach',
@@ -232,6 +250,12 @@ def r09_5(run):
 def r09_6(run):
     ca = run.idx.cls('_CircuitAttacher', 'circuit')
     add = run.idx.find_method(ca, '_add_real_target')
+    if add is None:
+        # by role: the one function of the class (a method, or a callback nested in one) that stores into self._circuit_targets
+        writers = [u for u in class_units(run.idx, ca) if any(isinstance(n, ast.Assign) and isinstance(n.targets[0], ast.Subscript) and dotted(n.targets[0].value) == 'self._circuit_targets'
+                                                              for n in walk_unit(u)) or any(dotted(c.func) == 'self._circuit_targets.setdefault' for c in calls_in(u))]
+        # (the innermost one: walk_unit of an enclosing method also sees the nested callback's statements? no - units are disjoint)
+        add = writers[0] if len(writers) == 1 else None
     att = run.idx.find_method(ca, 'attach_stream')
     fl = run.idx.find_method(ca, 'attach_stream_failure')
     if not (add and att and fl):
@@ -259,7 +283,7 @@ def r09_6(run):
                    message='_add_real_target registers the connection only under a test on the table (%s): a stale entry for the same local (host, port) keeps the slot'
                            % [src(t.ast)[:40] for t, _ in gd])
     run.floor('R09.6', 'writes to _circuit_targets', len(wkeys), 1)
-    p = add.params[1]
+    p = add.params[1] if add.params and add.params[0] == 'self' else add.params[0]       # (a nested callback has no self)
     for k in wkeys:
         ok = isinstance(k, ast.Tuple) and len(k.elts) == 2
         if ok:
